@@ -429,6 +429,34 @@ def main(run):
                      "C23_remove_value: conj x = x and re x = x for all values (real data), kpow agrees with natural powers"])
 
 
+def probe_subexpressions(e, limit=60):
+    """Search near a disagreeing input: put every scalar subexpression s under `lt(s, 0)`; if the
+    implementation accepts the comparison although s takes a non-real value for real-valued real-classified
+    terminals, that is a concrete failing input of the property."""
+    n = 0
+    for sub in L.nodes(e):
+        if sub._ufl_is_terminal_ or sub.ufl_shape or sub.ufl_free_indices or isinstance(sub, C.Condition):
+            continue
+        n += 1
+        if n > limit:
+            break
+        try:
+            probe = ufl.conditional(ufl.lt(sub, 0), 1, 2)
+            out, _ = run_complex(probe)
+        except Exception:
+            continue
+        if out is None:
+            continue
+        probs = [p for p in L.oracle_complex(probe, out, 4242, 10) if not p.get("known_class")]
+        if probs:
+            w = dict(probs[0])
+            w["probe_input"] = str(probe)
+            w["probe_input_repr"] = repr(probe)[:3000]
+            w["probe_output"] = str(out)
+            return w
+    return None
+
+
 def skeleton(e, memo=None):
     """the tree with Real / Conj nodes stripped, operand order kept"""
     memo = {} if memo is None else memo
@@ -477,6 +505,9 @@ def verdict_witness(c):
         if bad:
             return {"kind": "imag-or-complex-literal-accepted", "node": str(bad[0])[:200]}
     if c.mode == "complex":
+        w = probe_subexpressions(c.inp)
+        if w:
+            return w
         # an accepted input with an ordering operand that contains a complex-classified terminal and no
         # realifying operator above it
         for n in L.nodes(c.inp):
